@@ -103,7 +103,7 @@ def handleCmp (l : Line) : IO Unit := do
   let impl : Spec.MathSpec.ImplComparison :=
     { p := bitsD l "ip", n1 := (l.nat? "in1").getD 0, n2 := (l.nat? "in2").getD 0, alpha := bitsD l "ialpha",
       p21 := bitsD l "ip21", psh := bitsD l "ipsh", psc := bitsD l "ipsc",
-      delta := unhexStr (l.getD "idelta"), str := unhexStr (l.getD "istr") }
+      delta := unhexStr (l.getD "idelta"), str := unhexStr (l.getD "istr"), warn := l.getD "iwarn" }
   let v := Spec.MathSpec.judgeCompare a (bitsList (l.getD "v1")) (bitsList (l.getD "v2")) (bitsD l "alpha") old new impl
   IO.println s!"spec {id} {v}"
 
